@@ -427,9 +427,9 @@ def smallest_cap(algo, K, n, k=1):
 # rewards
 
 OPEN_FAMILIES = ["neg", "const", "zero", "tied", "noisy", "large", "large_off", "unit", "drift", "altext",
-                 "incr", "decr", "best_first", "best_last", "twoval", "quant5", "bern"]
+                 "incr", "decr", "best_first", "best_last", "twoval", "quant5", "bern", "negbern", "nonpos3"]
 HUGE_FAMILIES = ["huge"]
-CLOSED_FAMILIES = ["cl_hump", "cl_sine", "cl_garland", "cl_step"]
+CLOSED_FAMILIES = ["cl_hump", "cl_sine", "cl_garland", "cl_step", "cl_negdist"]
 
 
 def open_rewards(fam, seed, T):
@@ -444,6 +444,10 @@ def open_rewards(fam, seed, T):
         return rng.choice([0.0, 1.0, -1.0], size=T)
     if fam == "quant5":
         return rng.choice([0.0, 0.25, 0.5, 0.75, 1.0], size=T)
+    if fam == "negbern":
+        return -rng.choice([0.0, 1.0], size=T, p=[0.3, 0.7])
+    if fam == "nonpos3":
+        return rng.choice([0.0, -0.5, -2.0], size=T, p=[0.2, 0.4, 0.4])
     if fam == "bern":
         return rng.choice([0.0, 1.0], size=T, p=[0.6, 0.4])
     if fam == "twoval":
@@ -505,6 +509,10 @@ def closed_reward_fn(fam, seed, box):
             x = min(max(u[0], 1e-12), 1 - 1e-12)
             v = x * (1 - x) * (4 - math.sqrt(abs(math.sin(60 * x)))) - sum((a - c) ** 2 for a, c in
                                                                              zip(u[1:], centre[1:]))
+        elif fam == "cl_negdist":
+            # noiseless negative distance to a dyadic target: the maximum 0 is hit exactly by a cell centre
+            tgt = [(0.5, 0.25, 0.75, 0.3125)[int(c * 4) % 4] for c in centre]
+            return float(-sum(abs(a - b) for a, b in zip(u, tgt)))
         elif fam == "cl_step":
             v = float(sum(1.0 for a, c in zip(u, centre) if a > c)) / d - 0.5
         else:
